@@ -80,6 +80,18 @@ def run(e: Engine, rep: Report):
     v3(e, rep)
     v4(e, rep)
     v5(e, rep)
+    rep.rule('V6', 'a value looked up in a class-level table of the v2 '
+             'parser is tested by truthiness only if no entry of the table '
+             'can be falsy (socket.AF_UNSPEC is 0): a legal header is not '
+             'refused as malformed')
+    v6(e, rep)
+    rep.rule('V7', 'the log calls that lie between a parsed header and the '
+             'wrapped handler take the address as it is: the shape of a '
+             'source address depends on the family ((host, port), bytes '
+             'path, None), so slimta.logging.socket proxyproto_* never '
+             'index / unpack / search it outside an isinstance guard (an '
+             'exception there leaves handle() and the connection is lost)')
+    v7(e, rep)
     rep.floor('V1', 4, 'recv_into sites')
 
 
@@ -892,3 +904,186 @@ def v5(e: Engine, rep: Report):
     if nret < 3:
         rep.error('anchor vanished: returns of __parse_pp_addresses '
                   '(%d < 3)' % nret)
+
+
+# ---------------------------------------------------------------------- V6
+FALSY_SOCKET_CONSTANTS = {'AF_UNSPEC'}
+
+
+def v6(e: Engine, rep: Report):
+    n = 0
+    for cq, c in sorted(e.p.classes.items()):
+        if c.module.name != MOD:
+            continue
+        # class-level tables: name -> list of value expressions
+        tables = {}
+        for st in c.node.body:
+            if isinstance(st, ast.Assign) and isinstance(st.value, ast.Dict):
+                for t in st.targets:
+                    if isinstance(t, ast.Name):
+                        tables[t.id] = st.value.values
+        for mname, m in sorted(c.methods.items()):
+            looked = {}
+            for a in walk_own(m.node):
+                if isinstance(a, ast.Assign) and len(a.targets) == 1 and \
+                        isinstance(a.targets[0], ast.Name) and \
+                        isinstance(a.value, ast.Call) and \
+                        isinstance(a.value.func, ast.Attribute) and \
+                        a.value.func.attr == 'get' and \
+                        isinstance(a.value.func.value, ast.Attribute):
+                    tn = a.value.func.value.attr
+                    # name mangling: cls.__families is _Class__families
+                    for k in tables:
+                        if tn == k or tn.endswith(k):
+                            looked[a.targets[0].id] = k
+            if not looked:
+                continue
+            rep.functions.add(m.qname)
+
+            def truthy_uses(t, out):
+                if isinstance(t, ast.BoolOp):
+                    for v in t.values:
+                        truthy_uses(v, out)
+                elif isinstance(t, ast.UnaryOp) and isinstance(t.op,
+                                                               ast.Not):
+                    truthy_uses(t.operand, out)
+                elif isinstance(t, ast.Name) and t.id in looked:
+                    out.append(t)
+            for x in walk_own(m.node):
+                test = x.test if isinstance(x, (ast.If, ast.While, ast.IfExp,
+                                                ast.Assert)) else None
+                if test is None:
+                    continue
+                uses = []
+                truthy_uses(test, uses)
+                for u in uses:
+                    n += 1
+                    rep.evaluations += 1
+                    tb = looked[u.id]
+                    falsy = [v for v in tables[tb] if (
+                        isinstance(v, ast.Constant) and not v.value) or (
+                        isinstance(v, ast.Attribute) and
+                        v.attr in FALSY_SOCKET_CONSTANTS)]
+                    rep.check(not falsy, 'V6', m.qname,
+                              '`%s` tested by truthiness' % u.id,
+                              '`%s` comes from the table %s, whose entry '
+                              '`%s` is falsy: a header that names it - a '
+                              'legal one - is treated like an unknown value '
+                              'and refused as malformed' % (
+                                  u.id, tb.lstrip('_'),
+                                  ast.unparse(falsy[0]) if falsy else ''),
+                              loc=m.loc(x), reason='no entry of the table '
+                              'is falsy')
+    rep.evaluations += 1
+    rep.ok('V6', MOD, 'table look-ups tested by truthiness: %d' % n,
+           reason='each judged against its table', nontrivial=False)
+
+
+# ---------------------------------------------------------------------- V7
+def v7(e: Engine, rep: Report):
+    LOGMOD = 'slimta.logging.socket'
+    mod = e.p.modules.get(LOGMOD)
+    if mod is None:
+        rep.error('anchor vanished: ' + LOGMOD)
+        return
+    n = 0
+
+    def parents(fn):
+        par = {}
+        for x in ast.walk(fn):
+            for ch in ast.iter_child_nodes(x):
+                par[ch] = x
+        return par
+
+    def misuse(fn, pname, depth=0):
+        """first use of the parameter that depends on its shape, or None"""
+        if any(isinstance(x, ast.Call) and isinstance(x.func, ast.Name) and
+               x.func.id == 'isinstance' and x.args and
+               isinstance(x.args[0], ast.Name) and x.args[0].id == pname
+               for x in ast.walk(fn.node)):
+            return None
+        par = parents(fn.node)
+        # names taken out of the parameter stand for (parts of) it
+        names = {pname}
+        for _ in range(3):
+            for a in walk_own(fn.node):
+                if isinstance(a, ast.Assign) and any(
+                        isinstance(y, ast.Name) and y.id in names
+                        for y in ast.walk(a.value)):
+                    for t in a.targets:
+                        for y in ast.walk(t):
+                            if isinstance(y, ast.Name):
+                                names.add(y.id)
+
+        def guarded(x):
+            """inside a try body whose handlers take a TypeError"""
+            y = x
+            while y in par:
+                up = par[y]
+                if isinstance(up, ast.Try) and y in up.body and any(
+                        h.type is None or any(
+                            isinstance(z, ast.Name) and z.id in (
+                                'TypeError', 'Exception', 'BaseException')
+                            for z in ast.walk(h.type))
+                        for h in up.handlers):
+                    return True
+                y = up
+            return False
+        for x in walk_own(fn.node):
+            if not (isinstance(x, ast.Name) and x.id in names and
+                    isinstance(x.ctx, ast.Load)) or guarded(x):
+                continue
+            up = par.get(x)
+            if isinstance(up, (ast.Subscript, ast.Attribute)) and \
+                    up.value is x:
+                return up, fn
+            if isinstance(up, ast.Starred):
+                return up, fn
+            if isinstance(up, (ast.For, ast.comprehension)) and \
+                    up.iter is x:
+                return up if isinstance(up, ast.For) else x, fn
+            if isinstance(up, ast.Compare) and x in up.comparators and any(
+                    isinstance(o, (ast.In, ast.NotIn)) for o in up.ops):
+                return up, fn
+            if isinstance(up, ast.Assign) and up.value is x and any(
+                    isinstance(t, (ast.Tuple, ast.List))
+                    for t in up.targets):
+                return up, fn
+            if isinstance(up, ast.Call) and depth < 2 and (
+                    x in up.args):
+                # handed to a helper of the same class / module
+                nm = up.func.attr if isinstance(up.func, ast.Attribute) \
+                    else (up.func.id if isinstance(up.func, ast.Name)
+                          else None)
+                for f2 in e.p.functions.values():
+                    if f2.module.name == LOGMOD and f2.name == nm and \
+                            f2 is not fn:
+                        ps = [q for q in f2.params if q not in ('self',
+                                                                'cls')]
+                        i = up.args.index(x)
+                        if i < len(ps):
+                            r = misuse(f2, ps[i], depth + 1)
+                            if r:
+                                return r
+        return None
+    for f in e.p.functions.values():
+        if f.module.name != LOGMOD or not f.name.startswith('proxyproto_'):
+            continue
+        rep.functions.add(f.qname)
+        for pname in f.params[2:]:
+            n += 1
+            rep.evaluations += 1
+            r = misuse(f, pname)
+            rep.check(r is None, 'V7', f.qname,
+                      '`%s` is logged as it is' % pname,
+                      'the log call takes `%s` apart (`%s` in %s) without '
+                      'looking at its type: a PROXY v2 AF_UNIX source is a '
+                      'bytes path, an unknown one None, so this raises '
+                      'inside handle() after the header was parsed - the '
+                      'connection never reaches the wrapped handler' % (
+                          pname, ' '.join(ast.unparse(r[0]).split())[:40]
+                          if r else '', r[1].name if r else ''),
+                      loc=f.loc(r[0]) if r and r[1] is f else f.loc(),
+                      reason='passed on whole')
+    if n < 2:
+        rep.error('anchor vanished: proxyproto_* log functions (%d < 2)' % n)
